@@ -1,6 +1,8 @@
 /- Hand-written executable model (tie B): Cond — the kriging cache of CondSRF (field/cond_srf.py) and the
    refresh protocol of Krige.set_condition (krige/base.py).  Values are abstract identifiers (`Nat`);
-   what matters is *under which settings* a stored kriging result was computed.  Core Lean only. -/
+   what matters is *under which settings* a stored kriging result was computed, *where* it is stored
+   (`raw_krige` lives in the CondSRF object, `krige_var` in the Krige object, each under a field name) and
+   *which kriging run* it stems from (stored arrays carry an object identity).  Core Lean only. -/
 import GSV.Proto
 open Lean GSV GSV.Proto
 namespace GSV.Model.Cond
@@ -14,27 +16,57 @@ structure KrigeTok where
   pos : Nat          -- target positions (incl. mesh type)
 deriving DecidableEq, Repr, Inhabited
 
+/-- a stored array: what it holds and which Python object it is (`is`-identity) -/
+structure Stored where
+  tok : KrigeTok
+  obj : Nat
+deriving DecidableEq, Repr, Inhabited
+
+/-- stored fields of one object, by field name (`0` = the default name, other numbers = custom names) -/
+abbrev FieldStore := Nat → Option Stored
+
+def FieldStore.empty : FieldStore := fun _ => none
+def FieldStore.set (m : FieldStore) (n : Nat) (v : Stored) : FieldStore := fun k => if k = n then some v else m k
+
 structure State where
-  pos : Option Nat          -- current positions of the field object
+  pos : Option Nat          -- current positions; ONE tuple shared by the CondSRF and its Krige object (`CondSRF.pos` delegates)
   cond : Nat                -- current conditioning data
   model : Nat               -- current model value
   mean : Nat                -- current mean / trend / normaliser value
   matCond : Nat             -- conditions used by the stored kriging matrix
   matModel : Nat            -- model used by the stored kriging matrix
-  cache : Option KrigeTok   -- stored `raw_krige` + `krige_var` (both present or both absent)
-deriving DecidableEq, Repr, Inhabited
+  raw : FieldStore               -- `raw_krige` fields stored in the CondSRF object
+  var : FieldStore               -- `krige_var` fields stored in the Krige object
+  ref : Option (Nat × Nat)  -- `_krige_ref`: identities of the (raw_krige, krige_var) arrays stored by the last kriging run of CondSRF
+  nextObj : Nat             -- next unused object identity
+deriving Inhabited
 
 inductive Op where
-  | call (pos : Option Nat)          -- `crf(pos)`; `none` = reuse stored positions
-  | setPos (pos : Nat)
+  /-- `crf(pos, store=…, krige_store=…)`; `pos = none`: reuse stored positions; `rawName`/`store`: name and save flag of
+      the third CondSRF slot (`raw_krige`), `varName`/`krigeStore`: of the second Krige slot (`krige_var`) -/
+  | call (pos : Option Nat) (rawName : Nat) (store : Bool) (varName : Nat) (krigeStore : Bool)
+  /-- a direct `crf.krige(pos, store=…)` on the underlying Krige object; `store = some n`: the variance is stored under name `n` -/
+  | krigeCall (pos : Option Nat) (store : Option Nat)
+  | setPos (pos : Nat)               -- `crf.set_pos`
+  | krigeSetPos (pos : Nat)          -- `crf.krige.set_pos`
   | setCondition (cond : Option Nat) -- `krige.set_condition(...)`: new data or plain refresh
   | modelChange (m : Nat)            -- in-place change / re-assignment of the model
   | setMean (v : Nat)                -- mean / trend / normaliser re-assignment
-  | deleteFields
+  | deleteFields                     -- `crf.delete_fields()`
+  | krigeDeleteFields                -- `crf.krige.delete_fields()`
+deriving DecidableEq, Repr, Inhabited
+
+/-- when `CondSRF.__call__` reuses stored kriging results:
+    * `present`  — both fields merely present under the requested names (the unrepaired code),
+    * `varRef`   — additionally the stored variance is the remembered variance object (insufficient with custom names),
+    * `bothRef`  — both stored arrays are the remembered pair of one kriging run (the repaired code). -/
+inductive Rule where
+  | present | varRef | bothRef
 deriving DecidableEq, Repr, Inhabited
 
 def init (cond model mean : Nat) : State :=
-  { pos := none, cond, model, mean, matCond := cond, matModel := model, cache := none }
+  { pos := none, cond, model, mean, matCond := cond, matModel := model,
+    raw := FieldStore.empty, var := FieldStore.empty, ref := none, nextObj := 0 }
 
 /-- the kriging result a freshly built object (current conditions, model, mean) returns at `p` -/
 def freshTok (s : State) (p : Nat) : KrigeTok :=
@@ -44,15 +76,23 @@ def freshTok (s : State) (p : Nat) : KrigeTok :=
 def computeTok (s : State) (p : Nat) : KrigeTok :=
   { matCond := s.matCond, matModel := s.matModel, rhsModel := s.model, mean := s.mean, pos := p }
 
-/-- the object is in sync with its settings: the kriging matrix was built from the current conditions and
-    model, and a stored kriging result (if any) is the one a fresh object would compute -/
-def synced (s : State) : Bool :=
+/-- diagnostic (driver): the kriging matrix was built from the current conditions and model, and the variances
+    stored under the names `< k` are what a fresh object would compute -/
+def syncedUpTo (k : Nat) (s : State) : Bool :=
   decide (s.matCond = s.cond) && decide (s.matModel = s.model) &&
-  (match s.cache with | none => true | some t => decide (t = freshTok s t.pos))
+  (List.range k).all fun n => match s.var n with
+    | none => true
+    | some v => decide (s.pos = some v.tok.pos) && decide (v.tok = freshTok s v.tok.pos)
 
-/-- `set_pos`: a position tuple different from the stored one deletes all stored fields -/
+/-- `CondSRF.set_pos`: a position tuple different from the stored one deletes all stored fields of the
+    CondSRF object and of its Krige object (`_krige_ref` is left alone) -/
 def setPos (s : State) (p : Nat) : State :=
-  if s.pos = some p then s else { s with pos := some p, cache := none }
+  if s.pos = some p then s else { s with pos := some p, raw := FieldStore.empty, var := FieldStore.empty }
+
+/-- `Field.set_pos` on the Krige object (also what `krige(pos)` does first): the SHARED positions change, only the
+    Krige object's stored fields are deleted -/
+def krigeSetPos (s : State) (p : Nat) : State :=
+  if s.pos = some p then s else { s with pos := some p, var := FieldStore.empty }
 
 /-- positions a call works on: the given ones, else the stored ones -/
 def targetPos (s : State) (p? : Option Nat) : Option Nat :=
@@ -60,35 +100,77 @@ def targetPos (s : State) (p? : Option Nat) : Option Nat :=
   | some p => some p
   | none => s.pos
 
-/-- a call at positions `p`: (new state, (kriging token used, was it reused)) -/
-def callAt (s : State) (p : Nat) : State × Option (KrigeTok × Bool) :=
-  let s := setPos s p
-  match s.cache with
-  | some t => (s, some (t, true))
-  | none =>
-    let t := computeTok s p
-    ({ s with cache := some t }, some (t, false))
+/-- the reuse test of `CondSRF.__call__` under a rule: the stored pair that is reused, if any -/
+def reusable (rule : Rule) (s : State) (rn vn : Nat) : Option (Stored × Stored) :=
+  match s.raw rn, s.var vn with
+  | some r, some v =>
+    let ok : Bool := match rule with
+      | .present => true
+      | .varRef => match s.ref with
+        | some (_, j) => decide (v.obj = j)
+        | none => false
+      | .bothRef => match s.ref with
+        | some (i, j) => decide (r.obj = i) && decide (v.obj = j)
+        | none => false
+    if ok then some (r, v) else none
+  | _, _ => none
 
-/-- output of a call: `none` = raises (no positions), else (token used, was it reused) -/
-def step (s : State) : Op → State × Option (KrigeTok × Bool)
-  | .call p? =>
+/-- output of a CondSRF call: (raw-kriging token used, kriging-variance token used, were they reused) -/
+abbrev CallOut := Option (KrigeTok × KrigeTok × Bool)
+
+/-- a fresh kriging run of `CondSRF.__call__` at the (already set) positions `p`: the variance is stored in the Krige
+    object iff `kst`, the raw field in the CondSRF object iff `st`, and the stored pair is remembered iff both -/
+def freshRun (s : State) (p rn : Nat) (st : Bool) (vn : Nat) (kst : Bool) : State :=
+  { s with var := if kst then s.var.set vn ⟨computeTok s p, s.nextObj + 1⟩ else s.var,
+           raw := if st then s.raw.set rn ⟨computeTok s p, s.nextObj⟩ else s.raw,
+           ref := if st && kst then some (s.nextObj, s.nextObj + 1) else none,
+           nextObj := s.nextObj + 2 }
+
+/-- a CondSRF call at positions `p`.  (`info["deleted"]` needs no separate flag: when `set_pos` deleted, both stores
+    are empty and nothing is reusable.) -/
+def callAt (rule : Rule) (s : State) (p rn : Nat) (st : Bool) (vn : Nat) (kst : Bool) : State × CallOut :=
+  match reusable rule (setPos s p) rn vn with
+  | some (r, v) => (setPos s p, some (r.tok, v.tok, true))
+  | none => (freshRun (setPos s p) p rn st vn kst, some (computeTok (setPos s p) p, computeTok (setPos s p) p, false))
+
+/-- a direct kriging call at positions `p` -/
+def krigeCallAt (s : State) (p : Nat) (store : Option Nat) : State :=
+  let s := krigeSetPos s p
+  match store with
+  | some vn => { s with var := s.var.set vn ⟨computeTok s p, s.nextObj⟩, nextObj := s.nextObj + 1 }
+  | none => s
+
+/-- one operation; output `none` = not a CondSRF call, or the call raises (no positions) -/
+def stepWith (rule : Rule) (s : State) : Op → State × CallOut
+  | .call p? rn st vn kst =>
     match targetPos s p? with
     | none => (s, none)
-    | some p => callAt s p
+    | some p => callAt rule s p rn st vn kst
+  | .krigeCall p? store =>
+    match targetPos s p? with
+    | none => (s, none)
+    | some p => (krigeCallAt s p store, none)
   | .setPos p => (setPos s p, none)
+  | .krigeSetPos p => (krigeSetPos s p, none)
   | .setCondition c? =>
     let c := c?.getD s.cond
-    ({ s with cond := c, matCond := c, matModel := s.model, cache := none }, none)
+    ({ s with cond := c, matCond := c, matModel := s.model, var := FieldStore.empty }, none)
   | .modelChange m => ({ s with model := m }, none)
   | .setMean v => ({ s with mean := v }, none)
-  | .deleteFields => ({ s with cache := none }, none)
+  | .deleteFields => ({ s with raw := FieldStore.empty }, none)
+  | .krigeDeleteFields => ({ s with var := FieldStore.empty }, none)
 
-def run (s : State) : List Op → State × List (Option (KrigeTok × Bool))
+/-- the repaired code -/
+def step (s : State) (op : Op) : State × CallOut := stepWith .bothRef s op
+
+def runWith (rule : Rule) (s : State) : List Op → State × List CallOut
   | [] => (s, [])
   | op :: ops =>
-    let (s', o) := step s op
-    let (s'', os) := run s' ops
+    let (s', o) := stepWith rule s op
+    let (s'', os) := runWith rule s' ops
     (s'', o :: os)
+
+def run (s : State) (ops : List Op) : State × List CallOut := runWith .bothRef s ops
 
 /-! ### the conditioning formula (`get_scaling` and the final sum) -/
 section formula
@@ -112,20 +194,40 @@ end formula
 
 /-! ### driver -/
 
+def condOptNat (j : Json) (k : String) : Option Nat :=
+  match j.getObjVal? k with
+  | .ok (Json.num n) => some n.mantissa.toNat
+  | _ => none
+
+def condOptBool (j : Json) (k : String) (dflt : Bool) : Bool :=
+  match j.getObjVal? k with
+  | .ok (Json.bool b) => b
+  | _ => dflt
+
 def parseOp (j : Json) : Except String Op := do
   let k ← getStr j "k"
   match k with
-  | "call" => match j.getObjVal? "pos" with
-    | .ok (Json.num n) => return .call (some n.mantissa.toNat)
-    | _ => return .call none
+  | "call" =>
+    let rn := (condOptNat j "rn").getD 0
+    let vn := (condOptNat j "vn").getD 0
+    return Op.call (condOptNat j "pos") rn (condOptBool j "store" true) vn (condOptBool j "kstore" true)
+  | "krige_call" =>
+    let st : Option Nat := if condOptBool j "store" true then some ((condOptNat j "vn").getD 0) else none
+    return Op.krigeCall (condOptNat j "pos") st
   | "set_pos" => return .setPos (← getNat j "pos")
-  | "set_condition" => match j.getObjVal? "cond" with
-    | .ok (Json.num n) => return .setCondition (some n.mantissa.toNat)
-    | _ => return .setCondition none
+  | "krige_set_pos" => return .krigeSetPos (← getNat j "pos")
+  | "set_condition" => return .setCondition (condOptNat j "cond")
   | "model" => return .modelChange (← getNat j "v")
   | "mean" => return .setMean (← getNat j "v")
   | "delete" => return .deleteFields
+  | "krige_delete" => return .krigeDeleteFields
   | _ => throw s!"unknown cond op {k}"
+
+def parseRule (j : Json) : Rule :=
+  match j.getObjVal? "rule" with
+  | .ok (Json.str "present") => .present
+  | .ok (Json.str "var_ref") => .varRef
+  | _ => .bothRef
 
 def tokJson (t : KrigeTok) : Json :=
   Json.arr ((#[t.matCond, t.matModel, t.rhsModel, t.mean, t.pos] : Array Nat).map fun n => Json.num (JsonNumber.fromNat n))
@@ -134,19 +236,22 @@ def ops (op : String) (j : Json) : Option (Except String Json) :=
   match op with
   | "cond_history" => some (do
       let c ← getNat j "cond"; let m ← getNat j "model"; let mu ← getNat j "mean"
+      let rule := parseRule j
       let arr ← (← j.getObjVal? "ops").getArr?
       let opl ← arr.toList.mapM parseOp
       -- replay step by step so that the fresh token of the state *at each call* is reported
       let mut s := init c m mu
       let mut out : Array Json := #[]
       for o in opl do
-        let (s', r) := step s o
+        let (s', r) := stepWith rule s o
         match o, r with
-        | .call _, some (t, reused) =>
+        | .call .., some (tr, tv, reused) =>
           let p := s'.pos.getD 0
-          out := out.push (Json.mkObj [("tok", tokJson t), ("fresh", tokJson (freshTok s' p)),
-            ("reused", Json.bool reused), ("eq_fresh", Json.bool (decide (t = freshTok s' p))), ("synced_before", Json.bool (synced s))])
-        | .call _, none => out := out.push (Json.str "ValueError")
+          out := out.push (Json.mkObj [("tok", tokJson tr), ("vtok", tokJson tv), ("fresh", tokJson (freshTok s' p)),
+            ("reused", Json.bool reused),
+            ("eq_fresh", Json.bool (decide (tr = freshTok s' p) && decide (tv = freshTok s' p))),
+            ("same_run", Json.bool (decide (tr = tv))), ("synced_before", Json.bool (syncedUpTo 4 s))])
+        | .call .., none => out := out.push (Json.str "ValueError")
         | _, _ => pure ()
         s := s'
       return Json.arr out)
